@@ -62,49 +62,76 @@ def run_driver(ctx, drv, sub, mode, n, ops, tag, timeout=900):
     return out, crashes
 
 
+def truncate_terminal(traces):
+    """The driver stops recording a history at its first Hang/Crash line; drop stragglers logged after it."""
+    out = []
+    for t in traces:
+        k = next((i for i, e in enumerate(t) if e["op"] in ("Hang", "Crash")), None)
+        out.append(t if k is None else t[:k + 1])
+    return out
+
+
+def locate(traces, line):
+    """history index and 0-based event position of the 1-based file line."""
+    n = 0
+    for i, t in enumerate(traces):
+        if line <= n + len(t):
+            return i, line - n - 1
+        n += len(t)
+    return len(traces) - 1, len(traces[-1])
+
+
 def judge(ctx, module, traces, describe, chunk=400, timeout=900):
-    """Validate histories with TLC (existential acceptance, see Trace_LimitsRM.tla).  `describe(trace, pos, tag)`
-    returns (obligation_tag, signature, text) for a history that can only be explained with a failed obligation."""
+    """Validate histories with TLC (see spec/LimitsTrace.tla).  One strict run per chunk: violating paths are pruned,
+    Hang/Crash lines yield @@VERDICT lines.  A history without clean explanation stops the strict run; it is re-judged
+    alone with the diagnostic configuration, which tells a failed obligation (verdict) from a history that the
+    specification cannot explain at all (machinery error).  `describe(trace, pos, tag)` -> (obligation, signature, text)."""
+    traces = truncate_terminal(traces)
+    end = [{"op": "End"}]
     for start in range(0, len(traces), chunk):
         remaining = traces[start:start + chunk]
-        for attempt in range(40):
+        for attempt in range(60):
             if not remaining:
                 break
             cur = ctx.path("cur.ndjson")
-            write_traces(cur, remaining)
+            write_traces(cur, remaining + [end])
             res = ctx.tlc_validate(module, cur, ntraces=len(remaining), timeout=timeout)
+            hw = res["hwm"] if not res["ok"] else None
+            seen = set()
+            for m in re.finditer(r'@@VERDICT (\d+) ([^"\s]+)', res["out"]):
+                line, tag = int(m.group(1)), m.group(2)
+                if hw is not None and line > hw:
+                    continue
+                idx, pos = locate(remaining, line)
+                if (idx, tag) in seen:
+                    continue
+                seen.add((idx, tag))
+                obl, sig, text = describe(remaining[idx], pos, tag)
+                ctx.violation(obl, sig, text, {"history": remaining[idx][max(0, pos - 40):pos + 1], "tlc_tag": tag, "position": pos})
             if res["ok"]:
                 break
-            hw = res["hwm"]
             if hw is None:
                 raise vlib.MachineryError("%s: trace validation failed without position:\n%s" % (module, res["out"][-3000:]))
-            # locate the history containing line hw+1 (the first line no clean path could pass)
-            n = 0
-            idx = None
-            for i, t in enumerate(remaining):
-                if n + len(t) >= hw + 1 or i == len(remaining) - 1:
-                    idx = i
-                    break
-                n += len(t)
-            # a clean path that stops exactly at the next Init line means the PREVIOUS history ended dirty
+            idx, _ = locate(remaining, hw + 1)
             bad = remaining[idx]
-            pos = hw - n            # number of lines of `bad` consumed by a clean path
-            if pos >= len(bad) and idx + 1 < len(remaining):
-                pass
-            mv = re.search(r'@@VIOL\s+(-?\d+)\s+(-?\d+)\s*([^"\s]*)', res["out"])
-            tag = None
-            if res["invariant"] is not None:
-                ms = re.search(r'viol = "([^"]*)"', res["state"] or "")
-                tag = (ms.group(1) if ms and ms.group(1) else "C17.inv." + res["invariant"])
-            elif mv and mv.group(3) and int(mv.group(1)) > hw:
-                tag = mv.group(3)
-            if tag is None:
-                ev = bad[pos] if pos < len(bad) else {}
-                raise vlib.MachineryError("%s: history not explained by the specification at line %d (%s) - driver/spec "
-                                          "mismatch, not a verdict\n%s" % (module, hw + 1, json.dumps(ev)[:300], res["out"][-2500:]))
-            obl, sig, text = describe(bad, pos, tag)
-            ctx.violation(obl, sig, text, {"history": bad[:pos + 6], "tlc_tag": tag, "position": pos})
-            remaining = remaining[:idx] + remaining[idx + 1:]
+            one = ctx.path("one.ndjson")
+            write_traces(one, [bad, end])
+            r1 = ctx.tlc_validate(module, one, cfg=module + "_diag.cfg", ntraces=0, timeout=timeout)
+            if r1["ok"]:
+                raise vlib.MachineryError("%s: strict pass rejected a history that the diagnostic pass accepts" % module)
+            pos = r1["hwm"]
+            mv = re.search(r'@@VIOL\s+(-?\d+)\s+(-?\d+)\s+(-?\d+)\s*([^"\s]*)', r1["out"])
+            if not (mv and mv.group(4) and int(mv.group(1)) > pos):
+                ev = bad[pos] if pos is not None and pos < len(bad) else {}
+                raise vlib.MachineryError("%s: history not explained by the specification at event %s (%s) - driver/spec "
+                                          "mismatch, not a verdict\n%s" % (module, pos, json.dumps(ev)[:300], r1["out"][-2500:]))
+            tag = mv.group(4)
+            vpos = max(0, int(mv.group(3)) - 1)
+            obl, sig, text = describe(bad, vpos, tag)
+            ctx.violation(obl, sig, text, {"history": bad[max(0, vpos - 40):vpos + 3], "tlc_tag": tag, "position": vpos})
+            # histories before the rejected one were accepted in this run; continue behind it
+            ctx.cov["traces_validated_against_impl"] += idx
+            remaining = remaining[idx + 1:]
         else:
             raise vlib.MachineryError("too many violating histories in one chunk")
 
@@ -183,11 +210,13 @@ def check_rm(ctx, drv):
     #     (informative: the verdict comes from the real manager below)
     ok, out = ctx.tlc_mc("MC_LimitsRM", "MC_LimitsRM_asis.cfg", timeout=600, expect_ok=False)
     ctx.extra["rm_model_asis_precancel"] = "no error" if ok else ("violates " + ",".join(sorted(set(re.findall(r"Invariant (\w+) is violated", out)))) or "deadlock")
-    ok, out = ctx.tlc_mc("MC_LimitsRM", "MC_LimitsRM_wakeup.cfg", timeout=600, expect_ok=False)
-    ctx.extra["rm_model_lost_wakeup"] = "not reachable" if ok else "reachable (design observation, not an obligation of C17)"
+    if not ctx.quick():
+        ok, out = ctx.tlc_mc("MC_LimitsRM", "MC_LimitsRM_wakeup.cfg", timeout=600, expect_ok=False)
+        ctx.extra["rm_model_lost_wakeup"] = "not reachable" if ok else "reachable (design observation, not an obligation of C17)"
     # 2. the real manager
     ops = ctx.pick(10, 14)
-    plan = [("disc", ctx.pick(150, 1500)), ("pre", ctx.pick(40, 300)), ("during", ctx.pick(60, 600))]
+    plan = [("disc", ctx.pick(120, 1500)), ("pre", ctx.pick(8, 60)), ("during", ctx.pick(30, 300))]
+    alltraces = []
     for k, (mode, n) in enumerate(plan):
         out, crashes = run_driver(ctx, drv, "rm", mode, n, ops, k)
         traces, _ = rm_annotate(read_traces(out))
@@ -199,9 +228,12 @@ def check_rm(ctx, drv):
             ctx.oblig("C17.rm.balance", sum(1 for e in t if e["op"] == "call" and e["f"] == "Stats"))
             ctx.oblig("C17.rm.handshake", sum(1 for e in t if e["op"] == "call"))
             ctx.oblig("C17.rm.notify", sum(1 for e in t if e["op"] == "Notified"))
-        if traces:
+            ctx.oblig("C17.rm.cancel_before_request", sum(1 for i, e in enumerate(t) if e["op"] == "call" and e["f"] == "Request"
+                                                          and any(c["op"] == "Cancel" and c["id"] == e["id"] for c in t[:i])))
+        if traces and mode == "disc":
             ctx.sample({"rm_history_prefix": traces[0][:10]})
-        judge(ctx, "Trace_LimitsRM", traces, rm_describe)
+        alltraces += traces
+    judge(ctx, "Trace_LimitsRM", alltraces, rm_describe, chunk=ctx.pick(400, 500))
     # 3. measurement of the design observation on the real manager (never a verdict)
     out, _ = run_driver(ctx, drv, "rm", "wakeup", ctx.pick(12, 40), 0, 9)
     _, notes = rm_annotate(read_traces(out))
@@ -211,9 +243,151 @@ def check_rm(ctx, drv):
         raise vlib.MachineryError("rm: no notification was ever exercised")
 
 
+# ----------------------------------------------------------------------------------------------- Cache
+
+CACHE_DEFAULTS = {"g": 0, "f": "", "k": 0, "sz": 0, "ver": 0, "err": False, "size": 0, "rem": 0, "len": 0, "ents": [],
+                  "heapok": True, "timersok": True, "active": 0, "waiting": 0, "max": 0, "par": 1, "ng": 1, "d": 0,
+                  "shortttl": False, "idx": 0, "sub": "cache", "where": "", "msg": ""}
+
+
+def cache_prepare(traces):
+    return normalise(traces, CACHE_DEFAULTS)
+
+
+def crash_class(msg):
+    if "nil pointer" in msg:
+        return "nilptr"
+    if "index out of range" in msg:
+        return "index-out-of-range"
+    m = re.sub(r"[^A-Za-z ]+", "", msg.replace("panic: ", "")).strip().replace(" ", "-")
+    return m[:60] or "panic"
+
+
+def cache_describe(t, pos, tag):
+    sub = t[0].get("sub")
+    crash = next((e for e in t if e["op"] == "Crash"), None)
+    if tag == "C17.cache.crash" and crash:
+        sig = "sub=cache tag=%s class=%s where=%s" % (tag, crash_class(crash.get("msg", "")), crash.get("where"))
+        text = ("piececache crashed the process (%s at %s) in history %d of %s with max=%d units (+%d bytes), par=%d, shortttl=%s"
+                % (crash.get("msg"), crash.get("where"), t[0]["idx"], sub, t[0]["max"], t[0]["d"], t[0]["par"], t[0]["shortttl"]))
+        return tag, sig, text
+    ev = t[pos] if pos < len(t) else {}
+    sig = "sub=%s tag=%s op=%s max=%s par=%s" % (sub, tag, ev.get("f") or ev.get("op"), t[0].get("max"), t[0].get("par"))
+    return tag, sig, "piececache history violates %s at event %d: %s" % (tag, pos, json.dumps(ev)[:300])
+
+
+def check_cache(ctx, drv):
+    # design level: the repaired two-lock model keeps every invariant and refines the cache object ...
+    ctx.tlc_mc("MC_LimitsCache", "MC_LimitsCache_q1.cfg", timeout=900)
+    ctx.tlc_mc("MC_LimitsCache", "MC_LimitsCache_zero.cfg", timeout=900)
+    if not ctx.quick():
+        ctx.tlc_mc("MC_LimitsCache", "MC_LimitsCache_q2.cfg", timeout=1500)
+        ctx.tlc_mc("MC_LimitsCache", "MC_LimitsCache_fixed3.cfg", timeout=1500)
+        ctx.tlc_mc("MC_LimitsCache", "MC_LimitsCache_asis_fits.cfg", timeout=1500)
+    # ... the model of the code AS IT IS predicts two crashes (informative; verdicts come from the real cache below)
+    for cfg, key in (("MC_LimitsCache_asis_big.cfg", "cache_model_asis_value_larger_than_cache"),
+                     ("MC_LimitsCache_asis_clear.cfg", "cache_model_asis_clear_vs_expired_timer")):
+        ok, out = ctx.tlc_mc("MC_LimitsCache", cfg, timeout=600, expect_ok=False)
+        ctx.extra[key] = "no error" if ok else "violates " + ",".join(sorted(set(re.findall(r"Invariant (\w+) is violated", out))))
+    # the real cache
+    plan = [("cache", ctx.pick(120, 1200), ctx.pick(14, 20)), ("cacheconc", ctx.pick(120, 1000), 0)]
+    alltraces = []
+    for k, (sub, n, ops) in enumerate(plan):
+        out, crashes = run_driver(ctx, drv, sub, "", n, ops, 20 + k)
+        traces = cache_prepare(read_traces(out))
+        ctx.extra["%s_child_crashes" % sub] = crashes
+        for t in traces:
+            key = tuple((e["op"], e["g"], e["k"], e["sz"], e["err"], e["size"]) for e in t)
+            ctx.count_case((sub, t[0]["max"], t[0]["par"], key), any(e["op"] == "LoaderExit" for e in t))
+            ctx.oblig("C17.cache.limit", sum(1 for e in t if e["op"] in ("Snap", "Poll")))
+            ctx.oblig("C17.cache.balance", sum(1 for e in t if e["op"] == "Snap"))
+            ctx.oblig("C17.cache.value", sum(1 for e in t if e["op"] == "ret"))
+            ctx.oblig("C17.cache.parallel", sum(1 for e in t if e["op"] == "LoaderEnter"))
+            ctx.oblig("C17.cache.smallcfg", 1 if t[0]["max"] <= 1 else 0)
+        if traces:
+            ctx.sample({sub + "_history_prefix": traces[0][:8]})
+        alltraces += traces
+    judge(ctx, "Trace_LimitsCache", alltraces, cache_describe, chunk=ctx.pick(400, 600))
+
+
+# ----------------------------------------------------------------------------------------------- AddrList
+
+ADDR_DEFAULTS = {"src": 0, "n": 0, "has": False, "len": 0, "cnt": [0, 0, 0, 0, 0], "max": 0, "ng": 1, "idx": 0,
+                 "sub": "addr", "where": "", "msg": ""}
+
+
+def addr_prepare(traces):
+    return normalise(traces, ADDR_DEFAULTS)
+
+
+def addr_describe(t, pos, tag):
+    crash = next((e for e in t if e["op"] == "Crash"), None)
+    if tag == "C17.addr.crash" and crash:
+        return tag, "sub=addr tag=%s class=%s where=%s" % (tag, crash_class(crash.get("msg", "")), crash.get("where")), \
+            "addrlist crashed the process (%s at %s), max=%s" % (crash.get("msg"), crash.get("where"), t[0]["max"])
+    ev = t[pos] if pos < len(t) else {}
+    prev = t[pos - 1] if pos > 0 else {}
+    return tag, "sub=addr tag=%s op=%s max=%s" % (tag, ev.get("op"), t[0].get("max")), \
+        "addrlist counters violate %s at event %d: %s (before: len=%s cnt=%s)" % (tag, pos, json.dumps(ev)[:300], prev.get("len"), prev.get("cnt"))
+
+
+def check_addr(ctx, drv):
+    ctx.tlc_mc("MC_LimitsAddr", "MC_LimitsAddr.cfg", timeout=600)
+    ctx.tlc_mc("MC_LimitsAddr", "MC_LimitsAddr_zero.cfg", timeout=600)
+    out, crashes = run_driver(ctx, drv, "addr", "", ctx.pick(200, 3000), ctx.pick(25, 40), 40)
+    traces = addr_prepare(read_traces(out))
+    for t in traces:
+        key = tuple((e["op"], e["src"], e["n"], e["has"], e["len"], tuple(e["cnt"])) for e in t)
+        ctx.count_case(("addr", t[0]["max"], key), any(e["op"] == "Push" and e["len"] > 0 for e in t))
+        ctx.oblig("C17.addr.limit", sum(1 for e in t if e["op"] == "Push"))
+        ctx.oblig("C17.addr.balance", sum(1 for e in t if e["op"] in ("Push", "Pop", "Reset")))
+        ctx.oblig("C17.addr.atcapacity", sum(1 for e in t if e["op"] == "Push" and e["len"] == t[0]["max"]))
+    if traces:
+        ctx.sample({"addr_history_prefix": traces[0][:8]})
+    judge(ctx, "Trace_LimitsAddr", traces, addr_describe, chunk=1000)
+
+
+# ----------------------------------------------------------------------------------------------- Semaphore
+
+SEM_DEFAULTS = {"g": 0, "f": "", "len": 0, "waiting": 0, "final": False, "cap": 1, "ng": 1, "idx": 0, "sub": "sem", "mode": "",
+                "maxlen": 0, "minlen": 0, "maxinside": 0, "samples": 0, "finallen": 0, "finalwaiting": 0, "where": "", "msg": ""}
+
+
+def sem_prepare(traces):
+    return normalise(traces, SEM_DEFAULTS)
+
+
+def sem_describe(t, pos, tag):
+    ev = t[pos] if pos < len(t) else {}
+    return tag, "sub=sem tag=%s op=%s mode=%s cap=%s" % (tag, ev.get("op"), t[0].get("mode"), t[0].get("cap")), \
+        "semaphore history violates %s at event %d: %s" % (tag, pos, json.dumps(ev)[:300])
+
+
+def check_sem(ctx, drv):
+    ctx.tlc_mc("MC_LimitsSem", "MC_LimitsSem_fixed.cfg", timeout=600)
+    ctx.tlc_mc("MC_LimitsSem", "MC_LimitsSem_asis_core.cfg", timeout=600)
+    if not ctx.quick():
+        ok, out = ctx.tlc_mc("MC_LimitsSem", "MC_LimitsSem_asis.cfg", timeout=600, expect_ok=False)
+        ctx.extra["sem_model_asis_len_gauge"] = ("within capacity" if ok else
+                                                 "Len() can exceed the capacity for an instant in the model of Signal as it is (Release before "
+                                                 "active--); never observed on the real code (see sem stress samples) - design observation, no verdict")
+    out1, _ = run_driver(ctx, drv, "sem", "", ctx.pick(40, 300), 6, 50)
+    out2, _ = run_driver(ctx, drv, "sem", "stress", ctx.pick(4, 16), ctx.pick(250, 1500), 51)
+    traces = sem_prepare(read_traces(out1) + read_traces(out2))
+    nsamples = 0
+    for t in traces:
+        key = tuple((e["op"], e["g"], e["f"], e["len"], e["waiting"]) for e in t)
+        ctx.count_case(("sem", t[0]["cap"], key), any(e["op"] == "ret" and e["f"] == "Wait" for e in t) or t[0]["mode"] == "stress")
+        ctx.oblig("C17.sem.limit", sum(1 for e in t if e["op"] == "ret" and e["f"] == "Wait"))
+        ctx.oblig("C17.sem.len", sum(1 for e in t if e["op"] == "Obs"))
+        nsamples += sum(e["samples"] for e in t if e["op"] == "Stress")
+    ctx.extra["sem_stress_len_samples"] = nsamples
+    judge(ctx, "Trace_LimitsSem", traces, sem_describe, chunk=400)
+
+
 # ----------------------------------------------------------------------------------------------- registry
 
-SUBCHECKS = [("rm", check_rm)]
+SUBCHECKS = [("rm", check_rm), ("cache", check_cache), ("addr", check_addr), ("sem", check_sem)]
 
 
 def run(ctx):
